@@ -405,11 +405,28 @@ def run(ctx):
     ctx.ob('C06.order', 'single-order-translation', bool(ob_sites) and all(f.name in helpers_ for f in ob_sites),
            f'ordering terms are translated in {[f.name for f in ob_sites]}: a second translation next to to_order_by is not covered by the table above',
            file=FILE, line=tob.lineno)
-    wf_branch = [n for n in ast.walk(te) if isinstance(n, ast.If) and 'ast.WindowFunction' in norm(n.test)]
-    ctx.need(wf_branch, 'to_expression: WindowFunction branch not found')
-    uses_shared = any(isinstance(x, ast.Call) and norm(x.func) == 'self.to_order_by' for b in wf_branch[0].body for x in ast.walk(b))
+    # the window's ORDER BY goes through the same translation: to_expression interpreted on a WindowFunction with a recording to_order_by
+    from ..interp import Interp as _I, Obj as _O, Raised as _R, Env as _E
+    from ..saelem import Elem as _Elem, sa_stubs as _sa_stubs, elem_getattr as _eg
+    asked, marker = [], ['<translated order>']
+    terms_ = [_O('OrderBy', field=_O('Identifier', parts=['k'], alias=None), direction='DESC', nulls='default')]
+    node_ = _O('WindowFunction', function=_O('Function', op='sum', args=[], alias=None, parentheses=False), partition=None, order_by=terms_, modifier=None, alias=None,
+               parentheses=False)
+    stubs_ = _sa_stubs()
+    stubs_.update({'self.get_alias': lambda it, x: x, 'self.to_order_by': lambda it, o: (asked.append(o), marker)[1],
+                   'self.to_expression': lambda it, n_: _Elem('function', 'sum'),
+                   'sa.over': lambda it, f, *a, **k: _Elem('over', dict(k), [f] + list(a))})
+    it_ = _I.for_file(ctx.src, FILE, model_for(ctx.src).isa_table(), stubs_)
+    it_.stubs['getattr'] = _eg
+    try:
+        res_ = it_.call_function(te, [_O('SqlalchemyRender', dialect=_O('Dialect', name='postgresql')), node_], {}, _E())
+        uses_shared = len(asked) == 1 and asked[0] is terms_ and isinstance(res_, _Elem) and res_.kind == 'over' \
+            and any(v is marker for v in list((res_.value or {}).values()) + list(res_.args))
+    except _R as r_:
+        uses_shared = r_.exc_name == 'NotImplementedError'
     ctx.ob('C06.order', 'WindowFunction:uses-order-translation', uses_shared,
-           'the WindowFunction branch does not translate its ORDER BY terms with the order-by translation', file=FILE, line=wf_branch[0].lineno)
+           'the WindowFunction branch does not translate its ORDER BY terms with the order-by translation (to_order_by asked '
+           f'{len(asked)} time(s); its result must be what sa.over receives)', file=FILE, line=te.lineno)
     # operator table: to_expression interpreted on `a <op> b` for every operator spelling the grammars produce, with recording element stand-ins -------------
     spellings = set()
     for d in DIALECTS:
@@ -645,6 +662,9 @@ def run(ctx):
                 elif isinstance(n, ast.Call) and isinstance(n.func, ast.Name) and n.func.id in module_fns:
                     callee = module_fns[n.func.id]
                     shift = 0
+                elif isinstance(n, ast.Call) and isinstance(n.func, ast.Name) and n.func.id in local_fns:
+                    callee = local_fns[n.func.id]          # a closure defined inside a renderer method
+                    shift = 0
                 if callee is not None:
                     for i, a in enumerate(n.args):
                         if isinstance(a, ast.Name) and a.id in names and i + shift < len(callee.args.args) and callee is not region_owner.get(id(region)):
@@ -654,6 +674,11 @@ def run(ctx):
                                 out |= reads_in(callee.body, [callee.args.args[i + shift].arg])
         return out
     region_owner = {}
+    local_fns = {}
+    for m_ in fns.values():
+        for x_ in ast.walk(m_):
+            if isinstance(x_, ast.FunctionDef) and x_ is not m_:
+                local_fns.setdefault(x_.name, x_)
     render_reads = {}
     for cn, hs in HANDLERS.items():
         acc = set()
@@ -780,7 +805,7 @@ def run(ctx):
     ctx.floor('clause_fields', 40)
     ctx.floor('order_by_translations', 1)
     ctx.floor('generative_updates', 10)
-    ctx.floor('literal_overrides', 2)
+    ctx.floor('literal_overrides', 1)
 
 
 def _effective(n):
